@@ -199,6 +199,7 @@ func finishRes(o *c.Out, rr *resRun) {
 		}
 		o.Count(fmt.Sprintf("res:phased=%v", ph))
 	}
+	o.Count("res:instance-id=" + instanceKey(&k.Cfg))
 	o.Count(fmt.Sprintf("res:quotas=%d", len(k.Cfg.Rows)))
 	o.Count(fmt.Sprintf("res:steps=%02d-%02d", len(k.Steps)/10*10, len(k.Steps)/10*10+9))
 	idx := o.Case("res", coqRes(k), k, refusal && release)
@@ -251,7 +252,7 @@ func genCfg(r *c.Rng, engine bool) Cfg {
 	case 4:
 		rows = []QRow{row(-1), row(0), row(1)}
 	}
-	return Cfg{Rows: rows}
+	return Cfg{Rows: rows, Instance: pickInstance(r)}
 }
 
 // aimed clock increment: lands on (or 1 ns around) the expiry of a slot taken
@@ -768,6 +769,7 @@ func finishEng(o *c.Out, er *engRun) {
 		}
 	}
 	o.Count("eng:style=" + k.Cfg.Style)
+	o.Count("eng:instance-id=" + instanceKey(&k.Cfg.Cfg))
 	o.Count(fmt.Sprintf("eng:quotas=%d", len(k.Cfg.Rows)))
 	o.Count(fmt.Sprintf("eng:gc-wakeups=%02d-%02d", gcs/5*5, gcs/5*5+4))
 	idx := o.Case("eng", coqEng(k), k, refusal && release)
@@ -922,6 +924,7 @@ func genChainCfg(r *c.Rng, e *EngCfg) {
 	}
 	e.Style, e.Limiter, e.Limiter2 = "chain", 0, -1
 	e.OneFile = true
+	e.Instance = pickInstance(r)
 	e.OnRefusal = c.Pick(r, []string{"429", "429", "429", "forward"})
 	e.ForeignFirst = r.Chance(1, 2)
 	switch r.Intn(6) {
@@ -1274,6 +1277,10 @@ func main() {
 		"responses carry the request's URL and method and the PROVIDER's headers (content-type; an echo of the request headers 1/8, the same names " +
 		"with other values 1/8, none 1/8); the model predicts which system start / end processors each call selects; res: filters are declared (loader), " +
 		"no flow selection exists at that level. " +
+		"instance id (both suites): the cluster-liveness object is registered as main.go does (NewLunarCluster(id)) before the quotas are created, with no object 3/10 " +
+		"('unknown'), the EMPTY id 2/10 (GATEWAY_INSTANCE_ID unset), or the setenv shape / 'unknown' / '::' inside, first, last, alone / a single ':' / digits / blank / a transaction id / " +
+		"300 bytes (5/10); fixed corpus: every id x (abandoned transactions + expiry + GC pass with 1 ns edges; two-level chain; explicit ends then abandon; engine level with the real GC " +
+		"goroutine, three flow styles); the instance id is NOT part of the Coq case: the model says the same for every id. " +
 		"distinct = distinct (configuration, steps, observations); non-trivial = the history contains a refusal and a slot being given back")
 	var raw struct {
 		Gen   string `json:"generator"`
@@ -1304,6 +1311,7 @@ func main() {
 	}
 	genCorpus(o)
 	genCorpus2(o)
+	genCorpusInstance(o)
 	lap("corpus")
 	// all interleavings of two limiter-then-response programs, one and two levels
 	one := Cfg{Rows: []QRow{{Max: 1, TTLSec: 1, GCSec: hugeGC, Parent: -1}}}
